@@ -253,10 +253,15 @@ def dns_compr_part(ctx, exe, cfgs, G):
                         "cnt": "%d,%d,%d,%d" % tuple(sum(1 for x in recs if x["sec"] == s_) for s_ in ("qd", "an", "ns", "ar")),
                         "qd": "|".join("%s/%d/%d" % (hx(x["name"]), x["t"], x["c"]) for x in qs) or "-",
                         "rr": "|".join("%s/%s/%d/%d/%04x%04x/%s" % (x["sec"], hx(x["name"]), x["t"], x["c"], x["ttl"][0], x["ttl"][1], rd_token(x["rd"])) for x in rrs) or "-"}
+                # dns_msg_rr_find by every record's own owner name, over all records: the first record (in message order) whose
+                # name is equal ignoring letter case, with the number of records behind it (names and order come from the spec)
+                if rrs:
+                    low = [bytes(x["name"]).lower() for x in rrs]
+                    want["find"] = ",".join("0:%d:%d" % (low.index(nm), len(rrs) - 1 - low.index(nm)) for nm in low)
                 ok = True
-                for k2 in ("val", "sizeget", "info", "cnt", "qd", "rr"):
+                for k2 in ("val", "sizeget", "info", "cnt", "qd", "rr") + (("find",) if rrs else ()):
                     if f.get(k2) != want[k2]:
-                        what = {"val": "dns_msg_validate", "sizeget": "dns_msg_size_get", "info": "dns_msg_info_get", "cnt": "counters", "qd": "question", "rr": "rr"}[k2]
+                        what = {"val": "dns_msg_validate", "sizeget": "dns_msg_size_get", "info": "dns_msg_info_get", "cnt": "counters", "qd": "question", "rr": "rr", "find": "dns_msg_rr_find"}[k2]
                         if k2 == "rr":     # name the first record that differs: owner name / RDATA name / other fields
                             g = (f.get("rr") or "").split("|"); w = want["rr"].split("|")
                             j = next((q for q in range(min(len(g), len(w))) if g[q] != w[q]), min(len(g), len(w)))
